@@ -247,18 +247,23 @@ func checkC11(c caseC11) (viol string, nontrivial bool, feats []string) {
 		if st.Err == "eofnow" {
 			premature = true
 		}
-		if st.Err == "fail" {
+		if st.Err == "fail" || st.Err == "fail-wraps-eof" {
 			failStep = true
 		}
 	}
 	if f.sentErr {
 		feats = append(feats, "read-error-delivered")
 		// the read error itself or an error wrapping it
-		if !errors.Is(h.err, errSentinel) {
-			return fmt.Sprintf("a Read returned the error %q, but the call returned %v", errSentinel, h.err), false, feats
+		want := errSentinel
+		if f.sentWrapped {
+			want = errSentinelEOF
+			feats = append(feats, "read-error-wraps-io.EOF")
+		}
+		if !errors.Is(h.err, want) {
+			return fmt.Sprintf("a Read returned the error %q, but the call returned %v", want, h.err), false, feats
 		}
 	} else {
-		if errors.Is(h.err, errSentinel) {
+		if errors.Is(h.err, errSentinel) || errors.Is(h.err, errSentinelEOF) {
 			return "the call returned the injected error although no Read returned it", false, feats
 		}
 		// outcome class as for the whole (delivered) input, unless the reader
@@ -458,7 +463,7 @@ func genC11(t *rapid.T) caseC11 {
 		for len(c.Script) < k {
 			c.Script = append(c.Script, readStep{N: 4096})
 		}
-		c.Script = append(c.Script[:k:k], readStep{Err: "fail"})
+		c.Script = append(c.Script[:k:k], readStep{Err: gen.Pick(t, "failkind", []string{"fail", "fail", "fail-wraps-eof"})})
 	case 2: // EOF together with the last data
 		for i := range c.Script {
 			c.Script[i].Err = ""
@@ -483,10 +488,108 @@ func genC11(t *rapid.T) caseC11 {
 	return c
 }
 
+// ---- real files: the FileInput is an *os.File (regular file, empty file,
+// pipe), as the command-line tool passes it ----
+
+type osInput struct {
+	*os.File
+	closes int32
+}
+
+func (f *osInput) Close() error {
+	atomic.AddInt32(&f.closes, 1)
+	return f.File.Close()
+}
+
+type caseC11OS struct {
+	OSKind string    `json:"os_kind"` // regular | pipe
+	Input  inputSpec `json:"input"`
+	Entry  string    `json:"entry"`
+}
+
+func checkC11OS(c caseC11OS) string {
+	src := c.Input.source()
+	var in *osInput
+	switch c.OSKind {
+	case "pipe":
+		pr, pw, err := os.Pipe()
+		must(err)
+		go func() {
+			// in two writes, then the end
+			half := len(src) / 2
+			pw.WriteString(src[:half])
+			time.Sleep(time.Millisecond)
+			pw.WriteString(src[half:])
+			pw.Close()
+		}()
+		in = &osInput{File: pr}
+	default:
+		f, err := os.CreateTemp(os.Getenv("VERIF_SCRATCH"), "c11-*.bcl")
+		must(err)
+		defer os.Remove(f.Name())
+		_, err = f.WriteString(src)
+		must(err)
+		_, err = f.Seek(0, 0)
+		must(err)
+		in = &osInput{File: f}
+	}
+	done := make(chan error, 1)
+	go func() {
+		defer func() {
+			if r := recover(); r != nil {
+				done <- fmt.Errorf("panic: %v", r)
+			}
+		}()
+		var err error
+		switch c.Entry {
+		case "InterpretFile":
+			_, _, err = bcl.InterpretFile(in, bcl.OptOutput(io.Discard), bcl.OptLogger(io.Discard))
+		default:
+			_, err = bcl.ParseFile(in, bcl.OptOutput(io.Discard), bcl.OptLogger(io.Discard))
+		}
+		done <- err
+	}()
+	var err error
+	select {
+	case err = <-done:
+	case <-time.After(30 * time.Second):
+		in.File.Close()
+		return fmt.Sprintf("%s on a real file (%s, %d bytes) did not return within 30 s (Close calls so far: %d)", c.Entry, c.OSKind, len(src), atomic.LoadInt32(&in.closes))
+	}
+	if err != nil && strings.HasPrefix(err.Error(), "panic:") {
+		return fmt.Sprintf("%s on a real file panicked: %v", c.Entry, err)
+	}
+	deadline := time.Now().Add(5 * time.Second)
+	for atomic.LoadInt32(&in.closes) == 0 && time.Now().Before(deadline) {
+		time.Sleep(time.Millisecond)
+	}
+	if n := atomic.LoadInt32(&in.closes); n != 1 {
+		return fmt.Sprintf("%s on a real file (%s): Close was called %d times", c.Entry, c.OSKind, n)
+	}
+	var werr error
+	if c.Entry == "InterpretFile" {
+		_, _, werr = bcl.Interpret([]byte(src), bcl.OptOutput(io.Discard), bcl.OptLogger(io.Discard))
+	} else {
+		_, werr = bcl.Parse([]byte(src), "n", bcl.OptOutput(io.Discard), bcl.OptLogger(io.Discard))
+	}
+	if (werr == nil) != (err == nil) {
+		return fmt.Sprintf("%s on a real file (%s) returned %v, the same call on the bytes returns %v", c.Entry, c.OSKind, err, werr)
+	}
+	return ""
+}
+
 func TestC11(t *testing.T) {
 	rec := harness.Get("C11")
 	rec.SetExtra("gomaxprocs_of_shards", os.Getenv("GOMAXPROCS"))
 	if path := replayPath(); path != "" {
+		if strings.Contains(mustRead(path), `"os_kind"`) {
+			var oc caseC11OS
+			must(harness.LoadReplay(path, &oc))
+			if viol := checkC11OS(oc); viol != "" {
+				rec.Fail(t, oc, "%s", viol)
+			}
+			return
+		}
 		var c caseC11
 		must(harness.LoadReplay(path, &c))
 		for i := 0; i < 20; i++ {
@@ -497,6 +600,26 @@ func TestC11(t *testing.T) {
 		return
 	}
 	rapid.Check(t, func(t *rapid.T) {
+		if gen.Chance(t, 8, "osfile") {
+			oc := caseC11OS{OSKind: gen.Pick(t, "oskind", []string{"regular", "pipe"}), Entry: gen.Pick(t, "osentry", []string{"ParseFile", "InterpretFile"})}
+			oc.Input = inputSpec{LexAt: -1, Lines: gen.Pick(t, "oslines", []int{0, 0, 1, 3, 600, 3000})}
+			switch gen.Uniform(t, 4, "osclass") {
+			case 1:
+				if oc.Input.Lines > 0 {
+					oc.Input.ErrAt = []int{oc.Input.Lines - 1}
+				}
+			case 2:
+				if oc.Input.Lines > 0 {
+					oc.Input.LexAt = 0
+				}
+			}
+			viol := checkC11OS(oc)
+			rec.Case(true, harness.Hash("os", fmt.Sprintf("%+v", oc)), "input:real-file-"+oc.OSKind, fmt.Sprintf("real-file-empty=%v", oc.Input.Lines == 0))
+			if viol != "" {
+				rec.Fail(t, oc, "%s", viol)
+			}
+			return
+		}
 		c := genC11(t)
 		for rep := 0; rep < 2; rep++ { // schedules differ between repeats
 			viol, nt, feats := checkC11(c)
